@@ -482,6 +482,9 @@ package css
 //@   loop * candidate[T] cpM(p) <= old(cpM(p))
 //@   loop * decreases 2*(len(p.l.r.buf) - p.l.r.pos) + ite(first, 1, 0)
 //@ func Parser.parseDeclaration
+// the error position of 'expected colon' is the offset of the FIRST token after the property name: once recorded it stays
+//@   loop 1 transition[F,C15] @offset-first: prev(offset) != 0 ==> offset == prev(offset)
+//@   loop 1 transition[F,C15] @offset-set: prev(offset) == 0 ==> offset == p.l.r.pos - len(data)
 //@   loop 1 transition[F,C08] @level: smallInt(prev(p.level)) ==> p.level == prev(p.level) + cssLevelStep(tt)
 //@   requires[T] p.tt != ErrorToken
 //@   loop * candidate 0 <= offset && offset <= p.l.r.pos
@@ -525,6 +528,8 @@ package css
 //@   loop 1 invariant tokOK(tt, data, p) && (tt == RightBraceToken ==> p.l.r.pos >= 1) && tt != CommentToken
 //@   loop 1 decreases ite(tt == ErrorToken, 0, len(p.l.r.buf) - p.l.r.pos + 1)
 //@ func Parser.parseCustomProperty
+// a '}' that ends the value also ends the enclosing block: it is remembered so that the next call reports the End unit
+//@   ensures[F,C08,perpath,local] @end-brace: result == CustomPropertyGrammar ==> (p.prevEnd <==> tt#2 == RightBraceToken)
 //@   loop 1 transition[F,C08] @level: smallInt(prev(p.level)) ==> p.level == prev(p.level) + cssLevelStep(tt)
 //@   requires[T] p.tt != ErrorToken
 //@   loop * candidate len(p.state) == old(len(p.state))
